@@ -2,7 +2,7 @@ import Lemmas.QuadTreeNode
 /-! Tree-level refinement of the quadtree model: the `QuadTree` wrapper (`outside` list, automatic `Reorganize`,
     `Remove`, `Size`) against a multiset of ids.  Core Lean only; the rectangle laws enter through `RectLaws`. -/
 namespace QT
-variable {R P : Type} [L : RectOps R P] [H : RectLaws R P]
+variable {R P : Type} [L : RectOps R P]
 
 /-- every stored item carries the bounds of its id (the package's contract: `Bounds()` is constant while stored)
     and is non-empty -/
@@ -45,7 +45,7 @@ theorem Keyed.perm {bounds : Nat → R} {l l' : List (Item R)} (h : Keyed bounds
   fun it hit => h it (hp.subset hit)
 
 /-- the union of all bounds contains each of them -/
-theorem fold_union_contains (l : List (Item R)) (hl : ∀ it ∈ l, L.empty it.rect = false) (acc : R) :
+theorem fold_union_contains [H : RectLaws R P] (l : List (Item R)) (hl : ∀ it ∈ l, L.empty it.rect = false) (acc : R) :
     (L.empty acc = false → L.contains (l.foldl (fun r one => L.union r one.rect) acc) acc = true) ∧
     ∀ it ∈ l, L.contains (l.foldl (fun r one => L.union r one.rect) acc) it.rect = true := by
   induction l generalizing acc with
@@ -157,7 +157,7 @@ theorem reorganize_ok (bounds : Nat → R) (fuel : Nat) (t : Tree R) (h : TInv b
 
 /-- in exact arithmetic the guard of `Reorganize` always holds: the union rectangle contains every stored item, so
     nothing is sent to the outside list (the guard only matters when the union is rounded) -/
-theorem reorganize_guard_exact (bounds : Nat → R) (t : Tree R) (h : TInv bounds t) :
+theorem reorganize_guard_exact [H : RectLaws R P] (bounds : Nat → R) (t : Tree R) (h : TInv bounds t) :
     ∀ it ∈ t.all, L.contains (t.all.foldl (fun r one => L.union r one.rect) L.zero) it.rect = true :=
   (fold_union_contains t.all (fun it hit => (h.keyed it hit).2) L.zero).2
 
